@@ -692,6 +692,32 @@ def cross_file_cases():
     return out
 
 
+_TWIN_BOOL = [("x > 1", "x - 1"), ("x == 1", "x + 11"), ("x != 2", "x * 22")]
+_TWIN_INT = [("x + 1", "x < 1"), ("x * 2", "x > 2"), ("x - 3", "false")]
+_TWIN_KIND = {"if": _TWIN_BOOL, "field-attribute": _TWIN_BOOL, "struct-attribute": _TWIN_BOOL,
+              "array-size": _TWIN_INT, "field-size": _TWIN_INT, "field-start": _TWIN_INT, "second-start": _TWIN_INT,
+              "bits-size": _TWIN_INT, "parameter-argument": _TWIN_INT, "function-argument": _TWIN_INT,
+              "choice-branch": _TWIN_INT, "nested-condition": _TWIN_INT}
+
+
+def twin_cases():
+    """Seed-independent: two modules of one compilation whose expressions occupy EXACTLY the same source span (line
+    and columns), one well typed and one not -- the ill-typed one in the imported file, in the importing file, or
+    in both.  Whatever a pass remembers per source position must not leak from one file to the other.
+    Returns (inputs, files to offer for import)."""
+    out, files = [], {}
+    k = 0
+    for pos, tmpl in _KW_POSITIONS:
+        for ok, bad in _TWIN_KIND.get(pos, []):
+            assert len(ok) == len(bad)
+            for main_e, imp_e, lab in ((ok, bad, "imported-bad"), (bad, ok, "main-bad"), (bad, bad, "both-bad"), (ok, ok, "both-ok")):
+                name = "twin_%d.emb" % k
+                k += 1
+                files[name] = "# padding, so that the lines coincide\n" + tmpl.replace("{E}", imp_e)
+                out.append(("twin-span:%s:%s" % (pos, lab), 'import "%s" as tw\n' % name + tmpl.replace("{E}", main_e)))
+    return out, files
+
+
 def keyword_position(rng):
     """One random member of the enumeration, possibly wrapped once more."""
     kw = rng.choice(dollar_keywords())
